@@ -3,7 +3,7 @@ import random, json, os
 from . import _scn
 from .. import gen, oracles as O
 
-EDITS = ["wipe", "flip", "flip_first", "flip_last", "insert", "delete", "truncate", "empty", "append", "cr_insert", "crlf", "bom", "trailing_space", "case", "remove", "rmchain"]
+EDITS = ["wipe", "flip", "flip_first", "flip_last", "insert", "delete", "truncate", "empty", "append", "cr_insert", "crlf", "bom", "trailing_space", "case", "swap", "swap", "remove", "rmchain"]
 COMMANDS = ["create", "create_sf", "verify", "verifydh", "diff", "info", "infosf", "flatten"]
 
 
@@ -53,7 +53,7 @@ def build(seed):
     c = {"create": {"op": "create", "at": "", "h": ["md5"], "now": "2026-03-01 12:30:00"},
          "create_sf": {"op": "create", "at": "", "h": ["md5"], "sf": ["a.txt"], "now": "2026-03-01 12:30:00"},
          "verify": {"op": "verify", "at": ""}, "verifydh": {"op": "verifydh", "at": ""}, "diff": {"op": "diff", "at": ""},
-         "info": {"op": "info", "at": ""}, "infosf": {"op": "infosf", "at": "", "file": "a.txt"}, "flatten": {"op": "flatten", "at": ""}}[cmd]
+         "info": {"op": "info", "at": ""}, "infosf": {"op": "infosf", "at": "", "file": rnd.choice(["a.txt", "a.txt", "s/b.txt", "s/t/c.txt", "s/t/u/d.txt", "x/e.txt"])}, "flatten": {"op": "flatten", "at": ""}}[cmd]
     ops.append(c)
     return {"seed": seed, "profile": "c05", "root": "root", "tree": tree, "ops": ops, "c05": {"hist": hist, "edit": edit, "cmd": cmd, "expect": exp}}
 
@@ -98,7 +98,7 @@ def duplicated_history_cases(ctx):
         if rnd.random() < 0.7:
             ops.append({"op": "create", "at": "", "h": ["md5"], "now": "2026-03-01 12:00:03"})
         victim = rnd.choice(["card", copy])
-        edit = rnd.choice(["flip", "insert", "delete", "append", "remove"])
+        edit = rnd.choice(["flip", "insert", "delete", "append", "remove", "swap"])
         ops.append({"op": "tamper", "hist": victim, "gen": rnd.randint(0, 3), "kind": edit, "pos": rnd.randint(0, 10**6), "bit": rnd.randint(0, 7), "keep_mtime": True})
         cmd = rnd.choice(COMMANDS)
         c = {"create": {"op": "create", "at": "", "h": ["md5"], "now": "2026-03-01 12:30:00"}, "create_sf": {"op": "create", "at": "", "h": ["md5"], "sf": ["top.txt"], "now": "2026-03-01 12:30:00"},
